@@ -17,11 +17,30 @@ Theorem render_unambiguous : forall (e : env) (t1 t2 : ty),
   Small t1 -> Small t2 -> render t1 = render t2 -> norm e t1 = norm e t2.
 Proof. exact Proofs.render_unambiguous. Qed.
 
+(** For a type in the form the annotation reader produces ([annot_form]: the union variants and arities
+    [LuaUnionType::from_vec] gives, no array of [unknown]) and outside the two recorded classes ([known]: an
+    optional whose only member the reader absorbs — [any?], [unknown?], [never?], an alias of such — and unions
+    with two members of the same normal form), the type read back is THE SAME TYPE modulo the order of union
+    members ([ty_eqv], what [PartialEq for LuaUnionType] compares). *)
+Theorem reads_back_same_outside_known : forall (e : env) (t : ty),
+  Small t -> annot_form e t = true -> known e t = false ->
+  exists t', parse e (render t) = Some t' /\ ty_eqv t' t = true.
+Proof. exact Proofs.reads_back_same_outside_known. Qed.
+
+(** The recorded class is real (open finding): the annotation [any|nil] renders as [any?], which reads back
+    as [any]. *)
+Theorem reads_back_same_refuted : exists t : ty,
+  Small t /\ annot_form [] t = true /\ known [] t = true
+  /\ exists t', parse [] (render t) = Some t' /\ ty_eqv t' t = false.
+Proof. exact Proofs.reads_back_same_refuted. Qed.
+
 (** The doc lexer splits a rendered type into exactly the tokens the renderer meant. *)
 Theorem tokens_of_render : forall t, small Documentation 0 t = true -> lex (render t) = ptoks t.
 Proof. exact Proofs.tokens_of_render. Qed.
 
 (** non-vacuity: a nested record / array / optional / union / function / map type with an odd key, a string
     literal containing a quote and a backslash and negative literals is [Small] and round-trips exactly *)
-Example roundtrip_example : Small ex_type /\ parse [] (render ex_type) = Some ex_type.
-Proof. exact (conj Proofs.ex_small Proofs.ex_roundtrip). Qed.
+Example roundtrip_example :
+  Small ex_type /\ annot_form [] ex_type = true /\ known [] ex_type = false
+  /\ parse [] (render ex_type) = Some ex_type.
+Proof. exact (conj Proofs.ex_small (conj (proj1 Proofs.ex_annot) (conj (proj2 Proofs.ex_annot) Proofs.ex_roundtrip))). Qed.
